@@ -346,3 +346,61 @@ func implies(cond ast.Expr, want string, role func(string) string) bool {
 	}
 	return true
 }
+
+// ---- "X contains the literal L", however it is spelled ----
+
+// containsCanon recognises bytes.Contains(X, []byte("L")), strings.Contains(X, "L"), and the Index forms compared with 0 / -1
+// (`>= 0`, `!= -1`, `> -1` positive; `< 0`, `== -1` negative), through parentheses, `!` and string(X) / []byte conversions.
+func containsCanon(e ast.Expr) (subject, lit string, positive, ok bool) {
+	for {
+		p, isP := e.(*ast.ParenExpr)
+		if !isP {
+			break
+		}
+		e = p.X
+	}
+	if ue, isU := e.(*ast.UnaryExpr); isU && ue.Op == token.NOT {
+		s, l, pos, k := containsCanon(ue.X)
+		return s, l, !pos, k
+	}
+	strip := func(x ast.Expr) string {
+		if ce, isC := x.(*ast.CallExpr); isC && len(ce.Args) == 1 {
+			f := types.ExprString(ce.Fun)
+			if f == "string" || f == "[]byte" {
+				return types.ExprString(ce.Args[0])
+			}
+		}
+		return types.ExprString(x)
+	}
+	call := func(x ast.Expr, names ...string) (string, string, bool) {
+		ce, isC := x.(*ast.CallExpr)
+		if !isC || len(ce.Args) != 2 {
+			return "", "", false
+		}
+		f := types.ExprString(ce.Fun)
+		for _, n := range names {
+			if f == n {
+				l := strip(ce.Args[1])
+				if len(l) >= 2 && l[0] == '"' {
+					return strip(ce.Args[0]), l, true
+				}
+			}
+		}
+		return "", "", false
+	}
+	if s, l, k := call(e, "bytes.Contains", "strings.Contains"); k {
+		return s, l, true, true
+	}
+	if be, isB := e.(*ast.BinaryExpr); isB {
+		if s, l, k := call(be.X, "bytes.Index", "strings.Index"); k {
+			y := types.ExprString(be.Y)
+			switch {
+			case be.Op == token.GEQ && y == "0", be.Op == token.NEQ && y == "-1", be.Op == token.GTR && y == "-1":
+				return s, l, true, true
+			case be.Op == token.LSS && y == "0", be.Op == token.EQL && y == "-1":
+				return s, l, false, true
+			}
+		}
+	}
+	return "", "", false, false
+}
